@@ -16,8 +16,8 @@ TIERS = {
 FAULT_KINDS = ["clock jump", "raising event callback", "invalid frames interleaved"]
 REAL, STUBS, ASSUMPTIONS = netcheck.REAL, netcheck.STUBS, netcheck.ASSUMPTIONS
 REQUIRED_PROBES = ["accepted_lines", "controller_sets_sent", "ids_handed_out"]
-WEIGHTS = {"req": 14, "config": 5, "time": 6, "idreq": 5, "gwready": 3, "unknown_traffic": 8, "ctl_set": 10, "value": 14,
-           "present_child": 12, "clockjump": 2, "metric": 2, "discover_resp": 2, "internal_other": 4, "stream_bad": 0}
+WEIGHTS = {"req": 14, "config": 5, "time": 6, "idreq": 5, "gwready": 3, "unknown_traffic": 8, "ctl_set": 16, "value": 14,
+           "present_child": 12, "heartbeat": 7, "presleep": 7, "clockjump": 2, "metric": 2, "discover_resp": 2, "internal_other": 4, "stream_bad": 0}
 FLAVOURS = ["serial", "tcp", "aserial", "atcp", "mqtt", "amqtt"]
 REPLY_KINDS = {"req", "config", "time", "id-request", "gateway-ready", "set-unknown", "req-unknown", "child-presentation",
                "discover-response", "battery", "sketch-name", "sketch-version", "heartbeat", "pre-sleep", "stream-unknown"}
@@ -30,7 +30,7 @@ def gen(rng, tier, index):
     if cfg["flavour"] in ("mqtt", "amqtt"):
         cfg["in_prefix"] = rng.choice(["", "gw-out"])
         cfg["out_prefix"] = rng.choice(["", "gw-in"])
-    ops = netgen.make_ops(rng, cfg["version"], rng.randint(10, 60 if tier == "thorough" else 45), WEIGHTS, nodes=(1, 3))
+    ops = netgen.make_ops(rng, cfg["version"], rng.randint(10, 60 if tier == "thorough" else 45), WEIGHTS, nodes=(1, 3), scenario=0.2)
     return {"cfg": cfg, "ops": ops}
 
 
